@@ -30,4 +30,7 @@ def isEmptyString : J → Bool
   | _ => false
 end J
 
+/-- Go `strings.HasPrefix(s, p)` (on the characters; kernel-evaluable, unlike `String.startsWith`) -/
+def hasPrefix (s p : String) : Bool := p.toList.isPrefixOf s.toList
+
 end Nuts.C19
